@@ -250,12 +250,12 @@ let handle_glob words =
 let handle_rxwrap words =
   match words with
   | [ty; pat] ->
-    (* extended groups; character classes; newline = alternation *)
-    let (ext, cls, nl) = (match ty with
-        | "emacs" -> (false, false, false) | "grep" -> (false, true, true)
-        | "posix-extended" -> (true, true, false) | "posix-basic" | "ed" | "sed" -> (false, true, false)
+    (* extended groups; character classes; newline = alternation; grep brace; posix-basic \\+ \\? *)
+    let (ext, cls, nl, gb, pq) = (match ty with
+        | "emacs" -> (false, false, false, false, false) | "grep" -> (false, true, true, true, false)
+        | "posix-extended" -> (true, true, false, false, false) | "posix-basic" | "ed" | "sed" -> (false, true, false, false, true)
         | _ -> failwith "regextype") in
-    show_cps (RegexWrap.inside_group ext cls nl (cps pat))
+    show_cps (RegexWrap.inside_group ext cls nl gb pq (cps pat))
   | _ -> "badcase"
 
 (* ---- paths ---- *)
